@@ -216,4 +216,15 @@ Theorem C04_format_fragment_total :
   format_model alnum cfg s = inl (fm_out alnum cfg segs).
 Proof. exact format_fragment_total. Qed.
 
+(* the composed run cannot fail on programs of the fragment with declaration sections *)
+From PasfmtVerif Require Import Model.Fragment Proofs.FragmentProofs Proofs.FragmentParentsProofs Proofs.FragmentUnitProofs Model.Format Proofs.FormatFragmentProofs.
+Theorem C04_format_fragment_unit_total :
+  forall (alnum : bytes -> bool) (cfg : fconfig) (s : bytes) (segs : list seg)
+    (ds : list decl) (ss : stmts),
+  wf ss = true ->
+  lex_segments s = Some segs ->
+  map seg_ty segs = render_unit ds ss ->
+  format_model alnum cfg s = inl (fm_out alnum cfg segs).
+Proof. exact format_fragment_unit_total. Qed.
+
 
